@@ -241,7 +241,7 @@ def _make_sim(spec, log):
             if isinstance(operation, MultiPhaseOperation):
                 return spec["mp_native"]
             nm = base_name(operation.gate)
-            nm = "custom" if nm.startswith("cg") else nm
+            nm = "custom" if nm.startswith("cg") else ("cexact" if nm.startswith("ce_") else nm)
             return nm in native_names and len(operation.qubit_indices) <= spec["native_max_arity"]
 
         def _get_wavefunction_from_native_circuit(self, circuit, initial_state):
